@@ -14,6 +14,7 @@ import (
 	"verif/checks/c02"
 	"verif/checks/c03"
 	"verif/internal/fw"
+	"verif/internal/gen"
 	"verif/internal/run"
 	"verif/internal/v1"
 )
@@ -65,35 +66,12 @@ func nontrivial(bc *ugo.Bytecode) bool {
 	return false
 }
 
-// multiline puts one statement per line (statement separators "; " become
-// newlines, except inside three-clause for headers) so that reported error
-// positions distinguish source lines.
-func multiline(src string) string {
-	var sb strings.Builder
-	inFor := false
-	for i := 0; i < len(src); i++ {
-		if strings.HasPrefix(src[i:], "for ") && (i == 0 || src[i-1] == ' ' || src[i-1] == '\n') {
-			inFor = true
-		}
-		if src[i] == '{' {
-			inFor = false
-		}
-		if !inFor && src[i] == ';' && i+1 < len(src) && src[i+1] == ' ' {
-			sb.WriteByte('\n')
-			i++
-			continue
-		}
-		sb.WriteByte(src[i])
-	}
-	return sb.String()
-}
-
 func one(c *fw.Ctx, src string, inputs [][]ugo.Object) {
 	if c.Skip(src) {
 		return
 	}
 	key := src
-	src = multiline(src)
+	src = gen.Multiline(src)
 	bc, err, pan := run.Compile(src, run.Options{})
 	if pan != "" || err != nil {
 		c.Count("not_compilable", 1)
@@ -147,7 +125,8 @@ func one(c *fw.Ctx, src string, inputs [][]ugo.Object) {
 
 // jump grammar -------------------------------------------------------------------
 
-func jumpPrograms(thorough bool, yield func(string)) {
+// JumpPrograms enumerates the dedicated jump grammar (programs take one parameter x).
+func JumpPrograms(thorough bool, yield func(string)) {
 	conds := []string{"x == 0", "x == 1", "x"}
 	var k int
 	lbl := func() string { k++; return fmt.Sprintf("L(%d)", k) }
@@ -226,7 +205,7 @@ func run11(c *fw.Ctx) {
 	})
 	c.Family("jump-grammar", "if/else chains, loops, logical operators, ?:, try - nesting <= 1 (thorough 2), sequences <= 2, x inputs {0,1,2,\"x\"}")
 	ins := [][]ugo.Object{{ugo.Int(0)}, {ugo.Int(1)}, {ugo.Int(2)}, {ugo.String("x")}}
-	jumpPrograms(c.Thorough(), func(src string) {
+	JumpPrograms(c.Thorough(), func(src string) {
 		if c.Next() {
 			one(c, src, ins)
 		}
